@@ -90,7 +90,8 @@ def rule_filter(chk: Check, model, rid: str):
             ret = r.ret
             chk.add(rid, "Graph.filter returns a Graph of the filtered dicts", ret[0] == "obj" and ret[1] == "Graph", f"filter returns {T.show(ret)[:100]}", chk.loc(fi))
         else:
-            nn = [e for e in r.events if e.kind == "store_sub" and e.name == "new_nodes"]
+            # the per-node update: a record replaced with filtered inputs / info (whatever the local dict is called)
+            nn = [e for e in r.events if e.kind == "store_sub" and e.term[0] == "replace" and {"inputs", "info"} <= set(dict(e.term[2]))]
             ok = len(nn) == 1
             if ok:
                 v = nn[0].term
